@@ -115,6 +115,20 @@ fn write_length(w: &mut dyn Write, length: usize) {
     }
 }
 
+#[cfg(feature = "verif")]
+pub fn verif_write_length(length: usize) -> Vec<u8> {
+    let mut v = Vec::new();
+    write_length(&mut v, length);
+    v
+}
+
+#[cfg(feature = "verif")]
+pub fn verif_write_type(class: TagClass, structure: TagStructure, id: u64) -> Vec<u8> {
+    let mut v = Vec::new();
+    write_type(&mut v, class, structure, id);
+    v
+}
+
 #[cfg(test)]
 mod tests {
     use std::default::Default;
